@@ -1,6 +1,6 @@
 (* Dispatch.v — single entry point used by the OCaml runner and by the in-Coq
    cross-check: component name + input value -> observation value. *)
-From XV Require Import Base Options Worker Ctl Sched DSession System StatRec Rsync Warn GroupMark.
+From XV Require Import Base Options Worker Ctl Sched DSession System StatRec Rsync Warn GroupMark CtlRun.
 
 Definition dispatch (name : string) (input : sx) : sx :=
   if String.eqb name "options" then run_options input
@@ -14,6 +14,7 @@ Definition dispatch (name : string) (input : sx) : sx :=
   else if String.eqb name "split" then run_split input
   else if String.eqb name "groupmark" then run_groupmark input
   else if String.eqb name "system" then run_system input
+  else if String.eqb name "ctl" then run_ctl input
   else if String.eqb name "coll_eq" then
     match input with
     | SL [a; b] => match un_strs a, un_strs b with
